@@ -3,6 +3,10 @@
 package harness
 
 import (
+	"fmt"
+	"net/netip"
+	"os"
+	"path/filepath"
 	"testing"
 	"time"
 
@@ -173,4 +177,60 @@ func TestC12(t *testing.T) {
 	}
 	drv.Prop(t, rec, "random", 3000, 80000, genDHCPHistory,
 		func(tb drv.TB, h dhcpHistory) { runDHCPCase(tb, rec, "C12", "random", h, or, nt) })
+
+	// a handler restarted on the lease file of an earlier run with another configuration (DNS server, netfilter
+	// prefix length) must answer with the configuration it was given now
+	drv.Prop(t, rec, "reconfigured", 60, 2500, func(t *rapid.T) c12Reconf {
+		c := c12Reconf{First: genAckOnly(t), DNS: rapid.IntRange(0, 1).Draw(t, "dns"), NF: rapid.IntRange(0, 1).Draw(t, "nf")}
+		c.Second = genAckOnly(t).Ops
+		return c
+	}, func(tb drv.TB, c c12Reconf) { c12RunReconf(tb, rec, "reconfigured", c) })
+}
+
+type c12Reconf struct {
+	First  dhcpHistory `json:"first"` // run with the net's default configuration and a lease file
+	DNS    int         `json:"dns"`   // configuration of the second handler on the same file
+	NF     int         `json:"nf"`
+	Second []dOp       `json:"second"` // handshakes played against the second handler
+}
+
+func c12RunReconf(tb drv.TB, rec *drv.Rec, sub string, c c12Reconf) {
+	rec.Eval()
+	drv.Begin("C12", sub, 'J', mustJSON(c), 60*time.Second)
+	defer drv.End()
+	dir, _ := os.MkdirTemp("", "c12-")
+	defer os.RemoveAll(dir)
+	c.First.Cfg.DNS, c.First.Cfg.NF = 0, 0
+	if snaps, _, ok := c18Produce(tb, rec, sub, c.First, dir); !ok || len(snaps) == 0 {
+		return // no lease was acknowledged: there is no file to restart on
+	}
+	cfg2 := c.First.Cfg
+	cfg2.File, cfg2.DNS, cfg2.NF = filepath.Join(dir, "leases.yaml"), c.DNS, c.NF
+	var env *dhcpEnv
+	var err error
+	if p, sig, st := drv.Catch(func() { env, err = newDHCPEnv(cfg2) }); p != nil {
+		rec.Violation(tb, sub, "c12-reconf-"+sig, c, "New panicked on the lease file of the earlier configuration: %v\n%s", p, st)
+		return
+	}
+	if err != nil {
+		rec.Violation(tb, sub, "c12-reconf-new-failed", c, "New failed on the lease file of the earlier configuration: %v", err)
+		return
+	}
+	defer env.close()
+	// only self-contained handshakes: the wire-level ledger of the second run starts empty
+	var ops []dOp
+	for _, op := range c.Second {
+		if op.K == "request" && (op.Kind == "renew" || op.Kind == "reboot") {
+			continue
+		}
+		ops = append(ops, op)
+	}
+	var res dhcpResult
+	res.Served = map[int]bool{}
+	h2 := dhcpHistory{Cfg: cfg2, Ops: ops}
+	runDHCPOn(tb, rec, sub, h2, dhcpOracles{C12: true}, env, &res, &dLedger{holder: map[netip.Addr]int{}})
+	rec.Class(fmt.Sprintf("reconfigured dns=%d nf=%d acks=%d", c.DNS, c.NF, res.Acks))
+	if res.Acks > 0 && (c.DNS != 0 || c.NF != 0) {
+		rec.NonTrivial(drv.HashJSON(c), func() interface{} { return c })
+	}
 }
